@@ -22,6 +22,7 @@ def property_checks(inp):
     N, wvl, d1, mag, z, f = inp["N"], inp["wvl"], inp["d1"], inp["mag"], inp["z"], inp["f"]
     d2 = d1 * mag
     U = oc.rand_field(npr, N); V = oc.rand_field(npr, N)
+    U0, V0 = U.copy(), V.copy()
     a, b = complex(*inp["a"]), complex(*inp["b"])
     out = []
     A = out.append
@@ -56,6 +57,12 @@ def property_checks(inp):
     # repeated call with the same geometry returns the same field (power must not drift)
     o1 = op.angularSpectrum(U, wvl, d1, d2, z); o2 = op.angularSpectrum(U, wvl, d1, d2, z)
     A(("angularSpectrum repeatable", oc.relerr(o2, o1), 0.0))
+    # the caller's fields are still the fields that were passed in (power balance and linearity are statements about them)
+    A(("every propagator leaves the input field untouched", 0.0 if (numpy.array_equal(U, U0) and numpy.array_equal(V, V0)) else 1.0, 0.0))
+    for pn, f_, args_ in (("angularSpectrum", op.angularSpectrum, (wvl, d1, d2, z)), ("oneStepFresnel", op.oneStepFresnel, (wvl, d1, z)),
+                          ("twoStepFresnel", op.twoStepFresnel, (wvl, d1, d2, z)), ("lensAgainst", op.lensAgainst, (wvl, d1, f))):
+        W = U0.copy(); r1 = f_(W, *args_); same_in = numpy.array_equal(W, U0); r2 = f_(W, *args_)
+        A(("%s: input untouched and a second call on the same field gives the same result" % pn, 0.0 if (same_in and numpy.array_equal(r1, r2, equal_nan=True)) else 1.0, 0.0))
     return out
 
 
